@@ -1,12 +1,70 @@
-(* C09 — Fork-choice graph queries agree with the tree that was inserted. Statements only (proofs in Forkchoice/*Proofs.v). *)
-From Coq Require Import NArith List.
-From V Require Import Base.U64 Base.Outcome Forkchoice.ProtoArray Forkchoice.Wrapper Forkchoice.TreeSpec Forkchoice.GhostSpec
-     Forkchoice.Step Forkchoice.Refuted.
+(* C09 — Fork-choice head is the LMD-GHOST winner for every history of inputs.
+   Statements only; proofs in Forkchoice/{GhostProofs,Refuted}.v. *)
+From Coq Require Import NArith ZArith List Bool.
+From V Require Import Base.U64 Base.Outcome Forkchoice.ProtoArray Forkchoice.VoteStore Forkchoice.Wrapper Forkchoice.TreeSpec
+     Forkchoice.GhostSpec Forkchoice.Step Forkchoice.GhostProofs Forkchoice.Refuted.
 Import ListNotations.
 Local Open Scope N_scope.
 
-Theorem C09_insubtree_sibling_leaves_snapshot_refuted :
-  last_out (run_from pinned (init0 false) h_siblings) = Ok (RPair false true) /\
-  last_exp (spec_from (init0 false) h_siblings) = EVal (RPair false false) /\
-  last_out (run_from fixed (init0 false) h_siblings) = Ok (RPair false false).
-Proof. exact insubtree_sibling_leaves_refuted. Qed.
+(* The full property: over every history in the domain, Head / FindHead / ProcessAttestation of the Impl return what the Spec says
+   (GhostSpec: walk from the justified-or-pinned node to the child that leads to a viable node with the greatest (weight, root),
+   weight = balances of the validators whose latest accepted vote lies in the subtree). *)
+Definition C09_full : Prop := forall i ops, refines sel_c09 true i ops = true.
+Definition C09_head_refines : Prop := forall i ops, refines sel_c09 false i ops = true.
+   (* with the hypothesis excluding the known finding prune_keeps_late_fork. NOT proved: the invariants weights_inv (node weight =
+      subtree weight of the counted votes) and best_links_inv (BestChild/BestDescendant = the argmax chain after a refresh) are
+      checked on every correspondence run (node weights are compared with the Spec's after every head computation and update;
+      the link fields through the state checksum against the Impl and through every head against the Spec), not proved.
+      Proved for all states and inputs: the latest-message rule (vote_once), below. *)
+
+(* vote_once, acceptance: a vote touches the tracker of its validator only, never the vote currently counted, and replaces the
+   pending vote iff its target epoch is strictly later (or the validator never voted and the epoch is 0): older or equal change nothing *)
+Theorem C09_vote_once_attest : forall st ix r s st' b,
+  vs_ProcessAttestation ix r s st = (st', Ok b) ->
+  b = true /\
+  (forall j, j <> ix -> tracker_of st' j = tracker_of st j) /\
+  t_cur (tracker_of st' ix) = t_cur (tracker_of st ix) /\ t_cure (tracker_of st' ix) = t_cure (tracker_of st ix) /\
+  let old := tracker_of st ix in
+  let e := s / vs_spe st in
+  if (t_nexte old <? e) || ((e =? 0) && tr_is_zero old)
+  then t_next (tracker_of st' ix) = (r, s) /\ t_nexte (tracker_of st' ix) = e
+  else t_next (tracker_of st' ix) = t_next old /\ t_nexte (tracker_of st' ix) = t_nexte old.
+Proof. exact vote_once_attest. Qed.
+Print Assumptions C09_vote_once_attest.
+
+(* vote_once, refresh: ComputeDeltas keeps exactly one tracker per validator, never changes a pending vote, the counted vote
+   can only become the pending one and only if that node is known; one delta per node of `indices` *)
+Theorem C09_vote_once_refresh : forall fx ind ob nb_ st st' d,
+  ComputeDeltas fx ind ob nb_ st = (st', Ok d) ->
+  Forall2 (refreshed ind) (vs_votes st) (vs_votes st') /\ vs_changed st' = false /\ length d = length ind.
+Proof. exact vote_once_refresh. Qed.
+Print Assumptions C09_vote_once_refresh.
+
+(* the Spec's head, when there is one, is a viable node of the tree *)
+Theorem C09_spec_head_sound : forall s start e,
+  spec_find_head s start = Ok e -> In e (ss_tree s) /\ s_viable s e = true.
+Proof. exact spec_head_sound. Qed.
+Print Assumptions C09_spec_head_sound.
+
+(* Defects of the pinned snapshot *)
+Theorem C09_bestchild_nonviable_snapshot_refuted :
+  last_out (run_from all_but_nonviable (init0 false) h_nonviable) = Err /\
+  last_exp (spec_from (init0 false) h_nonviable) = EVal (RRef (2, 1)) /\
+  last_out (run_from fixed (init0 false) h_nonviable) = Ok (RRef (2, 1)).
+Proof. exact bestchild_nonviable_refuted. Qed.
+Theorem C09_attestation_gap_slot_snapshot_refuted :
+  last_out (run_from pinned (init0 false) h_att_gap) = Ok (RBool false) /\
+  last_exp (spec_from (init0 false) h_att_gap) = EVal (RBool true) /\
+  last_out (run_from fixed (init0 false) h_att_gap) = Ok (RBool true).
+Proof. exact attestation_gap_slot_refuted. Qed.
+Theorem C09_attestation_unknown_target_snapshot_refuted :
+  last_out (run_from pinned (init0 false) h_att_unknown) = Ok (RBool true) /\
+  last_exp (spec_from (init0 false) h_att_unknown) = EVal (RBool false) /\
+  last_out (run_from fixed (init0 false) h_att_unknown) = Ok (RBool false).
+Proof. exact attestation_unknown_target_refuted. Qed.
+
+(* non-vacuity: the full statement holds on histories with forks, moving votes, an update and a prune at an empty-slot anchor *)
+Example C09_nonvacuous :
+  refines sel_c09 true (init0 false) h_rich = true /\
+  refines sel_c09 true (init0 false) (h_gap_anchor ++ [OChain 3 4; OGetSlot 2; OBlock 3 9 6 1 1; OAtt 1 9 6; OAtt 2 9 6; OHead]) = true.
+Proof. destruct refines_examples as [_ [A [_ [_ [B _]]]]]. exact (conj A B). Qed.
